@@ -11,52 +11,81 @@ import BitstringModel.Proofs.C03
 import BitstringModel.Proofs.C03Range
 
 namespace BM.C03
-open BM
+open BM Range
 
 /-! ### reverse -/
 
 /-- Both branches of `reverse` (whole-store `bitarray.reverse()`; slice, reverse, assign back) compute
     `l[:a] + reversed(l[a:z]) + l[z:]`, and the range is validated first. -/
-theorem reverse_eq_spec (l : Bits) (s e : Option Int) : Alg.reverse l s e = Spec.reverse l s e := by
-  sorry
+theorem reverse_eq_spec (l : Bits) (s e : Option Int) : Alg.reverse l s e = Spec.reverse l s e :=
+  alg_reverse_eq l s e
 
 theorem reverse_length (l r : Bits) (s e : Option Int) (h : Spec.reverse l s e = .ok r) : r.length = l.length := by
-  sorry
+  rcases validateSlice_cases l.length s e with ⟨a, z, hv, haz, hz⟩ | hv
+  · rw [spec_reverse_ok l s e a z hv] at h
+    injection h with h
+    subst h
+    exact sw_length l _ a z haz hz (by rw [List.length_reverse, slc_length_of_le l a z hz])
+  · rw [spec_reverse_err l s e hv] at h; cases h
 
 /-- Frame: bits outside `[a, z)` are unchanged. -/
 theorem reverse_frame (l r : Bits) (s e : Option Int) (a z : Nat) (h : Spec.reverse l s e = .ok r)
     (hv : validateSlice l.length s e = .ok (a, z)) (i : Nat) (hi : i < a ∨ z ≤ i) : r[i]? = l[i]? := by
-  sorry
+  obtain ⟨haz, hz⟩ := validateSlice_ok hv
+  rw [spec_reverse_ok l s e a z hv] at h
+  injection h with h
+  subst h
+  exact sw_outside l _ a z haz hz (by rw [List.length_reverse, slc_length_of_le l a z hz]) i hi
 
 /-- Inside the range, bit `i` comes from the mirrored position. -/
 theorem reverse_getElem (l r : Bits) (s e : Option Int) (a z : Nat) (h : Spec.reverse l s e = .ok r)
     (hv : validateSlice l.length s e = .ok (a, z)) (i : Nat) (h1 : a ≤ i) (h2 : i < z) :
     r[i]? = l[a + z - 1 - i]? := by
-  sorry
+  obtain ⟨haz, hz⟩ := validateSlice_ok hv
+  rw [spec_reverse_ok l s e a z hv] at h
+  injection h with h
+  subst h
+  have hm : (slc l a z).length = z - a := slc_length_of_le l a z hz
+  rw [sw_inside l _ a z haz hz (by rw [List.length_reverse, hm]) i h1 h2,
+    List.getElem?_reverse (by omega), hm, slc_getElem? l a z _ (by omega)]
+  congr 1
+  omega
 
 theorem reverse_whole (l : Bits) : Spec.reverse l none none = .ok l.reverse := by
-  sorry
+  rw [spec_reverse_ok l none none 0 l.length (validateSlice_none _)]
+  simp [slc]
 
 theorem reverse_involutive (l r : Bits) (s e : Option Int) (h : Spec.reverse l s e = .ok r) :
     Spec.reverse r s e = .ok l := by
-  sorry
+  have hlen := reverse_length l r s e h
+  rcases validateSlice_cases l.length s e with ⟨a, z, hv, haz, hz⟩ | hv
+  · rw [spec_reverse_ok l s e a z hv] at h
+    injection h with h
+    have hm : (slc l a z).reverse.length = z - a := by rw [List.length_reverse, slc_length_of_le l a z hz]
+    rw [spec_reverse_ok r s e a z (by rw [hlen]; exact hv)]
+    subst h
+    rw [sw_take l _ a z haz hz, sw_drop l _ a z haz hz hm, sw_slc l _ a z haz hz hm, List.reverse_reverse,
+      take_slc_drop l a z haz]
+  · rw [spec_reverse_err l s e hv] at h; cases h
 
 theorem reverse_err_iff (l : Bits) (s e : Option Int) :
     (∃ err, Spec.reverse l s e = .error err) ↔ validateSlice l.length s e = .error .value := by
-  sorry
+  rcases validateSlice_cases l.length s e with ⟨a, z, hv, haz, hz⟩ | hv
+  · rw [spec_reverse_ok l s e a z hv, hv]
+    simp
+  · rw [spec_reverse_err l s e hv, hv]
+    simp
 
 /-! ### rol / ror -/
 
 /-- `_rol_msb0`: slice the first `r` bits of the range, `_delete` them, `_insert` them at `end - r` — this is the
     left rotation of `l[a:z]` by `bits mod (z - a)`.  Known deviation: an empty range (`bits %= 0`). -/
 theorem rol_eq_spec_partial (l : Bits) (k : Int) (s e : Option Int) (h : rotEmptyRange l k s e = false) :
-    Alg.rol l k s e = Spec.rol l k s e := by
-  sorry
+    Alg.rol l k s e = Spec.rol l k s e := alg_rol_eq l k s e h
 
 /-- `_ror_msb0`: slice the last `r` bits of the range, `_delete` them, `_insert` them at `start`. -/
 theorem ror_eq_spec_partial (l : Bits) (k : Int) (s e : Option Int) (h : rotEmptyRange l k s e = false) :
-    Alg.ror l k s e = Spec.ror l k s e := by
-  sorry
+    Alg.ror l k s e = Spec.ror l k s e := alg_ror_eq l k s e h
 
 theorem rot_empty_range_witness :
     (∃ err, Alg.rol [true, true, false, true, false, false] 2 (some 1) (some 1) = .error err) ∧
@@ -66,58 +95,151 @@ theorem rot_empty_range_witness :
   exact ⟨⟨_, rfl⟩, ⟨_, rfl⟩, by decide, by decide⟩
 
 theorem rol_length (l r : Bits) (k : Int) (s e : Option Int) (h : Spec.rol l k s e = .ok r) : r.length = l.length := by
-  sorry
+  obtain ⟨hl, hk, a, z, hv, haz, hz⟩ := spec_rol_inv h
+  rw [spec_rol_ok l k s e a z hl hk hv] at h
+  injection h with h
+  subst h
+  exact sw_length l _ a z haz hz (by rw [rotl_length, slc_length_of_le l a z hz])
 
 theorem ror_length (l r : Bits) (k : Int) (s e : Option Int) (h : Spec.ror l k s e = .ok r) : r.length = l.length := by
-  sorry
+  obtain ⟨hl, hk, a, z, hv, haz, hz⟩ := spec_ror_inv h
+  rw [spec_ror_ok l k s e a z hl hk hv] at h
+  injection h with h
+  subst h
+  exact sw_length l _ a z haz hz (by rw [rotl_length, slc_length_of_le l a z hz])
 
 /-- Frame: bits outside `[a, z)` are unchanged by a rotation of the range. -/
 theorem rol_frame (l r : Bits) (k : Int) (s e : Option Int) (a z : Nat) (h : Spec.rol l k s e = .ok r)
     (hv : validateSlice l.length s e = .ok (a, z)) (i : Nat) (hi : i < a ∨ z ≤ i) : r[i]? = l[i]? := by
-  sorry
+  obtain ⟨hl, hk, _⟩ := spec_rol_inv h
+  obtain ⟨haz, hz⟩ := validateSlice_ok hv
+  rw [spec_rol_ok l k s e a z hl hk hv] at h
+  injection h with h
+  subst h
+  exact sw_outside l _ a z haz hz (by rw [rotl_length, slc_length_of_le l a z hz]) i hi
 
 theorem ror_frame (l r : Bits) (k : Int) (s e : Option Int) (a z : Nat) (h : Spec.ror l k s e = .ok r)
     (hv : validateSlice l.length s e = .ok (a, z)) (i : Nat) (hi : i < a ∨ z ≤ i) : r[i]? = l[i]? := by
-  sorry
+  obtain ⟨hl, hk, _⟩ := spec_ror_inv h
+  obtain ⟨haz, hz⟩ := validateSlice_ok hv
+  rw [spec_ror_ok l k s e a z hl hk hv] at h
+  injection h with h
+  subst h
+  exact sw_outside l _ a z haz hz (by rw [rotl_length, slc_length_of_le l a z hz]) i hi
 
 /-- Inside the range, after `rol k` position `i` holds the bit that was `k` places to its right (cyclically). -/
 theorem rol_getElem (l r : Bits) (k : Int) (s e : Option Int) (a z : Nat) (h : Spec.rol l k s e = .ok r)
     (hv : validateSlice l.length s e = .ok (a, z)) (i : Nat) (h1 : a ≤ i) (h2 : i < z) :
     r[i]? = l[a + (i - a + k.toNat) % (z - a)]? := by
-  sorry
+  obtain ⟨hl, hk, _⟩ := spec_rol_inv h
+  obtain ⟨haz, hz⟩ := validateSlice_ok hv
+  rw [spec_rol_ok l k s e a z hl hk hv] at h
+  injection h with h
+  subst h
+  have hm : (slc l a z).length = z - a := slc_length_of_le l a z hz
+  have hr : k.toNat % (z - a) < z - a := Nat.mod_lt _ (by omega)
+  rw [sw_inside l _ a z haz hz (by rw [rotl_length, hm]) i h1 h2,
+    rotl_getElem? _ _ (by omega) _ (by omega), hm, ← add_mod_toNat,
+    slc_getElem? l a z _ (Nat.mod_lt _ (by omega))]
 
 /-- After `ror k` the bit of position `i` is found `k` places to the right (cyclically). -/
 theorem ror_getElem (l r : Bits) (k : Int) (s e : Option Int) (a z : Nat) (h : Spec.ror l k s e = .ok r)
     (hv : validateSlice l.length s e = .ok (a, z)) (i : Nat) (h1 : a ≤ i) (h2 : i < z) :
     r[a + (i - a + k.toNat) % (z - a)]? = l[i]? := by
-  sorry
+  obtain ⟨hl, hk, _⟩ := spec_ror_inv h
+  obtain ⟨haz, hz⟩ := validateSlice_ok hv
+  rw [spec_ror_ok l k s e a z hl hk hv] at h
+  injection h with h
+  subst h
+  have hm : (slc l a z).length = z - a := slc_length_of_le l a z hz
+  have hr : k.toNat % (z - a) < z - a := Nat.mod_lt _ (by omega)
+  have hlt : (i - a + k.toNat) % (z - a) < z - a := Nat.mod_lt _ (by omega)
+  rw [sw_inside l _ a z haz hz (by rw [rotl_length, hm]) _ (by omega) (by omega), Nat.add_sub_cancel_left,
+    add_mod_toNat]
+  have := rotr_getElem? (slc l a z) (k.toNat % (z - a)) (by omega) (i - a) (by omega)
+  rw [hm] at this
+  rw [this, slc_getElem? l a z _ (by omega)]
+  congr 1
+  omega
 
 theorem rol_ror_inverse (l r : Bits) (k : Int) (s e : Option Int) (h : Spec.rol l k s e = .ok r) :
     Spec.ror r k s e = .ok l := by
-  sorry
+  have hlen := rol_length l r k s e h
+  obtain ⟨hl, hk, a, z, hv, haz, hz⟩ := spec_rol_inv h
+  rw [spec_rol_ok l k s e a z hl hk hv] at h
+  injection h with h
+  have hm : (slc l a z).length = z - a := slc_length_of_le l a z hz
+  have hr : r ≠ [] := by intro h0; rw [h0] at hlen; apply hl; exact List.length_eq_zero_iff.mp hlen.symm
+  rw [spec_ror_ok r k s e a z hr hk (by rw [hlen]; exact hv)]
+  subst h
+  rw [sw_take l _ a z haz hz, sw_drop l _ a z haz hz (by rw [rotl_length, hm]),
+    sw_slc l _ a z haz hz (by rw [rotl_length, hm])]
+  have := rotl_rotr (slc l a z) (k.toNat % (z - a))
+  rw [hm] at this
+  rw [this, take_slc_drop l a z haz]
 
 theorem ror_rol_inverse (l r : Bits) (k : Int) (s e : Option Int) (h : Spec.ror l k s e = .ok r) :
     Spec.rol r k s e = .ok l := by
-  sorry
+  have hlen := ror_length l r k s e h
+  obtain ⟨hl, hk, a, z, hv, haz, hz⟩ := spec_ror_inv h
+  rw [spec_ror_ok l k s e a z hl hk hv] at h
+  injection h with h
+  have hm : (slc l a z).length = z - a := slc_length_of_le l a z hz
+  have hr : r ≠ [] := by intro h0; rw [h0] at hlen; apply hl; exact List.length_eq_zero_iff.mp hlen.symm
+  rw [spec_rol_ok r k s e a z hr hk (by rw [hlen]; exact hv)]
+  subst h
+  rw [sw_take l _ a z haz hz, sw_drop l _ a z haz hz (by rw [rotl_length, hm]),
+    sw_slc l _ a z haz hz (by rw [rotl_length, hm])]
+  by_cases h0 : z - a = 0
+  · have : slc l a z = [] := List.length_eq_zero_iff.mp (by omega)
+    have t := take_slc_drop l a z haz
+    rw [this] at t ⊢
+    simp only [List.drop_nil, List.take_nil, List.append_nil] at t ⊢
+    rw [t]
+  · have hr : k.toNat % (z - a) < z - a := Nat.mod_lt _ (by omega)
+    have := rotr_rotl (slc l a z) (k.toNat % (z - a)) (by omega)
+    rw [hm] at this
+    rw [this, take_slc_drop l a z haz]
 
 /-- Rotating by the range length (or any multiple) is the identity. -/
 theorem rol_full_turn (l : Bits) (m : Nat) (s e : Option Int) (a z : Nat) (hl : l ≠ [])
     (hv : validateSlice l.length s e = .ok (a, z)) : Spec.rol l ((m * (z - a) : Nat) : Int) s e = .ok l := by
-  sorry
+  obtain ⟨haz, hz⟩ := validateSlice_ok hv
+  rw [spec_rol_ok l _ s e a z hl (by omega) hv, Int.toNat_natCast, Nat.mul_mod_left]
+  simp only [List.drop_zero, List.take_zero, List.append_nil]
+  rw [take_slc_drop l a z haz]
 
 theorem rot_errors (l : Bits) (k : Int) (s e : Option Int) :
     (l = [] → Spec.rol l k s e = .error .bitstring ∧ Spec.ror l k s e = .error .bitstring) ∧
     (l ≠ [] → k < 0 → Spec.rol l k s e = .error .value ∧ Spec.ror l k s e = .error .value) ∧
     (l ≠ [] → 0 ≤ k → validateSlice l.length s e = .error .value →
       Spec.rol l k s e = .error .value ∧ Spec.ror l k s e = .error .value) := by
-  sorry
+  refine ⟨?_, ?_, ?_⟩
+  · intro h
+    subst h
+    exact ⟨rfl, rfl⟩
+  · intro hl hk
+    have : ¬ l.length = 0 := by simpa using hl
+    unfold Spec.rol Spec.ror
+    simp only [if_neg this, if_pos hk, and_self]
+  · intro hl hk hv
+    have : ¬ l.length = 0 := by simpa using hl
+    have hk' : ¬ k < 0 := by omega
+    unfold Spec.rol Spec.ror
+    simp only [if_neg this, if_neg hk', hv, and_self]
 
 /-! ### set -/
 
 /-- `set(v)` = `_setint(-1 | 0)` writes the all-ones / all-zeros word of the current length.
     Known deviation: on an empty bitstring `_setint` raises (`setAllEmpty`). -/
 theorem set_all_eq_spec_partial (l : Bits) (v : Bool) (h : l ≠ []) : Alg.set l v .all = Spec.set l v .all := by
-  sorry
+  have h0 : ¬ l.length = 0 := by simpa using h
+  show (if l.length = 0 then (⟨.error .value, l⟩ : Outcome) else ⟨.ok .none, intToBits l.length (if v then -1 else 0)⟩) =
+    ⟨.ok .none, List.replicate l.length v⟩
+  rw [if_neg h0]
+  cases v
+  · simp only [Bool.false_eq_true, if_false]; rw [intToBits_zero]
+  · simp only [if_true]; rw [intToBits_neg_one]
 
 theorem set_all_empty_witness :
     Alg.set [] true .all = ⟨.error .value, []⟩ ∧ Spec.set [] true .all = ⟨.ok .none, []⟩ := by
@@ -126,21 +248,23 @@ theorem set_all_empty_witness :
 /-- The per-position loop of `set` (`self._bitstore[p] = v` for each p) = "apply the longest valid prefix of the
     positions, then raise IndexError iff a position was invalid". -/
 theorem set_many_eq_spec (l : Bits) (v : Bool) (ps : List Int) : Alg.set l v (.many ps) = Spec.set l v (.many ps) := by
-  sorry
+  show Alg.setLoop v l ps = Spec.applyPrefix (fun acc j => acc.set j v) l ps
+  rw [applyPrefix_eq, setLoop_eq v l.length ps l rfl]
 
 theorem set_one_eq_spec (l : Bits) (v : Bool) (i : Int) : Alg.set l v (.one i) = Spec.set l v (.one i) := by
-  sorry
+  show Alg.setLoop v l [i] = Spec.applyPrefix (fun acc j => acc.set j v) l [i]
+  rw [applyPrefix_eq, setLoop_eq v l.length [i] l rfl]
 
 /-- The `range` fast path (`bitarray[a:b:c] = v`) equals the per-position meaning wherever the slice `[a:b:c]`
     selects exactly the (valid) positions of `range(a, b, c)`; elsewhere it silently differs (`setRangeAsSlice`). -/
 theorem set_range_eq_spec_partial (l : Bits) (v : Bool) (a b c : Int) (h : setRangeAsSlice l a b c = false) :
-    Alg.set l v (.range a b c) = Spec.set l v (.range a b c) := by
-  sorry
+    Alg.set l v (.range a b c) = Spec.set l v (.range a b c) :=
+  set_range_eq l v a b c h
 
 /-- A sufficient syntactic condition to be outside the region: a non-negative ascending range inside the bitstring. -/
 theorem setRangeAsSlice_false_of_nonneg (l : Bits) (a b c : Int) (ha : 0 ≤ a) (hb0 : 0 ≤ b) (hc : 0 < c) (hb : b ≤ (l.length : Int)) :
-    setRangeAsSlice l a b c = false := by
-  sorry
+    setRangeAsSlice l a b c = false :=
+  setRangeAsSlice_nonneg l a b c ha hb0 hc hb
 
 theorem set_range_witness :
     Alg.set (List.replicate 6 false) true (.range 5 (-1) (-1)) = ⟨.ok .none, List.replicate 6 false⟩ ∧
@@ -156,65 +280,143 @@ theorem set_partial_prefix (l : Bits) (v : Bool) (ps : List Int) (j : Nat) (hj :
     (hbad : PyL.normIdx l.length ps[j] = none) :
     Spec.set l v (.many ps) = ⟨.error .index, (Spec.set l v (.many (ps.take j))).bits⟩ ∧
     (Spec.set l v (.many (ps.take j))).ret = .ok .none := by
-  sorry
+  show Spec.applyPrefix (fun acc j => acc.set j v) l ps =
+      ⟨.error .index, (Spec.applyPrefix (fun acc j => acc.set j v) l (ps.take j)).bits⟩ ∧
+    (Spec.applyPrefix (fun acc j => acc.set j v) l (ps.take j)).ret = .ok .none
+  rw [applyPrefix_eq, applyPrefix_eq]
+  exact prefixOutcome_partial l.length _ l ps j hj hvalid hbad
 
 theorem set_many_ok_iff (l : Bits) (v : Bool) (ps : List Int) :
     (Spec.set l v (.many ps)).ret = .ok .none ↔ ∀ p ∈ ps, PyL.normIdx l.length p ≠ none := by
-  sorry
+  show (Spec.applyPrefix (fun acc j => acc.set j v) l ps).ret = .ok .none ↔ _
+  rw [applyPrefix_eq]
+  exact prefixOutcome_ret_ok_iff l.length _ l ps
 
 theorem set_length (l : Bits) (v : Bool) (p : PosArg) : (Spec.set l v p).bits.length = l.length := by
-  sorry
+  have key : ∀ ps, (Spec.applyPrefix (fun acc j => acc.set j v) l ps).bits.length = l.length := by
+    intro ps
+    rw [applyPrefix_eq]
+    exact prefixOutcome_length l.length _ (fun acc j => List.length_set) l ps
+  cases p with
+  | all => simp [Spec.set, Spec.positions]
+  | one i => exact key [i]
+  | many ps => exact key ps
+  | range a b c =>
+    by_cases hc : c = 0
+    · simp [Spec.set, Spec.positions, hc]
+    · have : Spec.set l v (.range a b c) = Spec.applyPrefix (fun acc j => acc.set j v) l (Py.rangeList a b c) := by
+        simp [Spec.set, Spec.positions, hc]
+      rw [this]
+      exact key _
 
 /-- With all positions valid: a listed position holds `v`, every other bit is unchanged (frame). -/
 theorem set_many_getElem (l : Bits) (v : Bool) (ps : List Int) (hall : ∀ p ∈ ps, PyL.normIdx l.length p ≠ none)
     (i : Nat) (hi : i < l.length) :
     (Spec.set l v (.many ps)).bits[i]? = if i ∈ ps.filterMap (PyL.normIdx l.length) then some v else l[i]? := by
-  sorry
+  show (Spec.applyPrefix (fun acc j => acc.set j v) l ps).bits[i]? = _
+  rw [applyPrefix_eq, prefixOutcome_valid l.length _ l ps hall]
+  exact foldl_set_getElem? _ v l i hi
 
 /-- Frame in general (also after an error): a position that is not listed keeps its bit. -/
 theorem set_many_frame (l : Bits) (v : Bool) (ps : List Int) (i : Nat)
     (hi : i ∉ ps.filterMap (PyL.normIdx l.length)) : (Spec.set l v (.many ps)).bits[i]? = l[i]? := by
-  sorry
+  show (Spec.applyPrefix (fun acc j => acc.set j v) l ps).bits[i]? = _
+  rw [applyPrefix_eq]
+  exact prefixOutcome_frame l.length _ (fun acc j i h => List.getElem?_set_ne (Ne.symm h)) l ps i hi
 
-theorem set_all_value (l : Bits) (v : Bool) : (Spec.set l v .all).bits = List.replicate l.length v := by
-  sorry
+theorem set_all_value (l : Bits) (v : Bool) : (Spec.set l v .all).bits = List.replicate l.length v := rfl
 
 /-! ### invert -/
 
 /-- The loop of `invert` (own bounds check, `_invert(p)`) = apply-the-valid-prefix semantics; a `range` is just an iterable here. -/
 theorem invert_many_eq_spec (l : Bits) (ps : List Int) : Alg.invert l (.many ps) = Spec.invert l (.many ps) := by
-  sorry
+  show Alg.invertLoop l.length l ps = Spec.applyPrefix (fun acc j => acc.modify j (!·)) l ps
+  rw [applyPrefix_eq, invertLoop_eq]
 
 theorem invert_eq_spec (l : Bits) (p : PosArg) : Alg.invert l p = Spec.invert l p := by
-  sorry
+  cases p with
+  | all => rfl
+  | one i =>
+    show Alg.invertLoop l.length l [i] = Spec.applyPrefix (fun acc j => acc.modify j (!·)) l [i]
+    rw [applyPrefix_eq, invertLoop_eq]
+  | many ps => exact invert_many_eq_spec l ps
+  | range a b c =>
+    unfold Alg.invert Spec.invert Spec.positions
+    simp only
+    split
+    · rfl
+    · show Alg.invertLoop l.length l _ = Spec.applyPrefix (fun acc j => acc.modify j (!·)) l _
+      rw [applyPrefix_eq, invertLoop_eq]
 
 theorem invert_partial_prefix (l : Bits) (ps : List Int) (j : Nat) (hj : j < ps.length)
     (hvalid : ∀ k (hk : k < j), PyL.normIdx l.length (ps[k]'(by omega)) ≠ none)
     (hbad : PyL.normIdx l.length ps[j] = none) :
     Spec.invert l (.many ps) = ⟨.error .index, (Spec.invert l (.many (ps.take j))).bits⟩ ∧
     (Spec.invert l (.many (ps.take j))).ret = .ok .none := by
-  sorry
+  show Spec.applyPrefix (fun acc j => acc.modify j (!·)) l ps =
+      ⟨.error .index, (Spec.applyPrefix (fun acc j => acc.modify j (!·)) l (ps.take j)).bits⟩ ∧
+    (Spec.applyPrefix (fun acc j => acc.modify j (!·)) l (ps.take j)).ret = .ok .none
+  rw [applyPrefix_eq, applyPrefix_eq]
+  exact prefixOutcome_partial l.length _ l ps j hj hvalid hbad
 
 theorem invert_length (l : Bits) (p : PosArg) : (Spec.invert l p).bits.length = l.length := by
-  sorry
+  have key : ∀ ps, (Spec.applyPrefix (fun acc j => acc.modify j (!·)) l ps).bits.length = l.length := by
+    intro ps
+    rw [applyPrefix_eq]
+    exact prefixOutcome_length l.length _ (fun acc j => List.length_modify _ _ _) l ps
+  cases p with
+  | all => simp [Spec.invert, Spec.positions]
+  | one i => exact key [i]
+  | many ps => exact key ps
+  | range a b c =>
+    by_cases hc : c = 0
+    · simp [Spec.invert, Spec.positions, hc]
+    · have : Spec.invert l (.range a b c) =
+          Spec.applyPrefix (fun acc j => acc.modify j (!·)) l (Py.rangeList a b c) := by
+        simp [Spec.invert, Spec.positions, hc]
+      rw [this]
+      exact key _
 
 theorem invert_many_frame (l : Bits) (ps : List Int) (i : Nat)
     (hi : i ∉ ps.filterMap (PyL.normIdx l.length)) : (Spec.invert l (.many ps)).bits[i]? = l[i]? := by
-  sorry
+  show (Spec.applyPrefix (fun acc j => acc.modify j (!·)) l ps).bits[i]? = _
+  rw [applyPrefix_eq]
+  refine prefixOutcome_frame l.length _ (fun acc j i h => ?_) l ps i hi
+  have hji : ¬ j = i := Ne.symm h
+  rw [List.getElem?_modify]
+  simp only [hji, if_false]
+  cases acc[i]? <;> rfl
 
 /-- A bit is flipped once per time its position is listed. -/
 theorem invert_many_getElem (l : Bits) (ps : List Int) (hall : ∀ p ∈ ps, PyL.normIdx l.length p ≠ none)
     (i : Nat) (hi : i < l.length) :
     (Spec.invert l (.many ps)).bits[i]? =
       some (if (ps.filterMap (PyL.normIdx l.length)).count i % 2 = 1 then !l[i] else l[i]) := by
-  sorry
+  show (Spec.applyPrefix (fun acc j => acc.modify j (!·)) l ps).bits[i]? = _
+  rw [applyPrefix_eq, prefixOutcome_valid l.length _ l ps hall]
+  simp only
+  rw [foldl_modify_not_getElem?, List.getElem?_eq_getElem hi]
+  split <;> rfl
 
 theorem invert_many_involutive (l : Bits) (ps : List Int) (hall : ∀ p ∈ ps, PyL.normIdx l.length p ≠ none) :
     (Spec.invert (Spec.invert l (.many ps)).bits (.many ps)).bits = l := by
-  sorry
+  have hlen := invert_length l (.many ps)
+  show (Spec.applyPrefix (fun acc j => acc.modify j (!·))
+    (Spec.applyPrefix (fun acc j => acc.modify j (!·)) l ps).bits ps).bits = l
+  rw [applyPrefix_eq]
+  have hlen' : (Spec.applyPrefix (fun acc j => acc.modify j (!·)) l ps).bits.length = l.length := hlen
+  rw [hlen', prefixOutcome_valid l.length _ _ ps hall, applyPrefix_eq, prefixOutcome_valid l.length _ l ps hall]
+  simp only
+  apply List.ext_getElem?
+  intro i
+  rw [foldl_modify_not_getElem?, foldl_modify_not_getElem?]
+  split
+  · cases l[i]? <;> simp
+  · rfl
 
 theorem invert_all_involutive (l : Bits) : (Spec.invert (Spec.invert l .all).bits .all).bits = l := by
-  sorry
+  show (l.map (!·)).map (!·) = l
+  simp [Function.comp_def]
 
 /-! ### non-vacuity -/
 example : rotEmptyRange [true, false, false] 4 (some 1) none = false ∧
